@@ -1,8 +1,8 @@
 SPECIFICATION Spec
 CONSTANTS
   Msgs = {"a", "b", "c"}
-  TL = 2
-  ML = 2
+  TL = 1
+  ML = 0
   MaxRetries = 1
   Repaired = TRUE
   Prefetch = 2
